@@ -593,11 +593,18 @@ class NetworkXPropertyGraph(ABCPropertyGraph, NetworkXMixin):
         assert label is not None
 
         # node ids are unique within a graph regardless of the class of the node
-        existing = list(nxq.search_nodes(self.storage.get_graph(self.graph_id),
-                                         {'and': [
-                                             {'eq': [ABCPropertyGraph.GRAPH_ID, self.graph_id]},
-                                             {'eq': [ABCPropertyGraph.NODE_ID, node_id]}
-                                         ]}))
+        # (the scan walks the live store: it is done under the store lock so that a node another
+        # thread creates or imports meanwhile cannot change the store under it)
+        graph = self.storage.get_graph(self.graph_id)
+        self.storage.lock.acquire()
+        try:
+            existing = list(nxq.search_nodes(graph,
+                                             {'and': [
+                                                 {'eq': [ABCPropertyGraph.GRAPH_ID, self.graph_id]},
+                                                 {'eq': [ABCPropertyGraph.NODE_ID, node_id]}
+                                             ]}))
+        finally:
+            self.storage.lock.release()
         if len(existing) > 0:
             raise PropertyGraphQueryException(node_id=node_id, graph_id=self.graph_id,
                                               msg="Unable to add node - a node with this ID exists")
